@@ -227,6 +227,19 @@ class ExtraCoords(ExtraCoordsABC):
         else:
             raise TypeError(f"The input type {type(lookup_table)} isn't supported")
 
+        # Keep the array dimension(s) in one form, whatever they were given as: an int or a tuple
+        # of ints, counted from the first axis (negative numbers count from the last, as in numpy).
+        ndim = len(self._ndcube.shape) if self._ndcube is not None else None
+
+        def sanitize_dimension(dimension):
+            dimension = int(dimension)
+            return dimension + ndim if dimension < 0 and ndim is not None else dimension
+
+        if isinstance(array_dimension, Integral):
+            array_dimension = sanitize_dimension(array_dimension)
+        else:
+            array_dimension = tuple(sanitize_dimension(dimension) for dimension in array_dimension)
+
         self._lookup_tables.append((array_dimension, coord))
 
         # Sort the LUTs so that the mapping and the wcs are ordered in pixel dim order
